@@ -7,9 +7,13 @@ equality on keys, and every finite history.
 -/
 import ChibiVerif.Model.HashMap
 import ChibiVerif.Lemmas.HashMapLemmas
+import ChibiVerif.Lemmas.C17RehashLemmas
 
 namespace ChibiVerif.Props.C17
 open ChibiVerif.HashMap
+open ChibiVerif.Gen.HashMap (INIT_SIZE HIGH_WATERMARK LOW_WATERMARK)
+open ChibiVerif.Gen.HashMapShape (functionsDefined macrosDefined callGraph rehashSteps rehashGrowCond
+  rehashGrowNext needRehash)
 
 variable {α β : Type} [DecidableEq α]
 
@@ -73,5 +77,120 @@ example : HM.get (fun _ : Nat => 5)
        .empty, .empty, .empty, .empty, .empty, .empty, .empty, .empty], 3⟩ : HM Nat Nat) 12
     = .ok (some 2) :=
   C17_get_agrees_with_state _ _ 12 (by decide)
+
+/-! ### `rehash` as an obligation of its own
+
+The refinement proof uses `rehash` through a lemma; the contract is stated here so that it is
+visible as an obligation: whatever replaces `rehash` has to meet it for EVERY well-formed table —
+in particular for tables whose probe clusters wrap around the end of the bucket array
+(Findings/C17Rehash.lean: an in-place purge walking from bucket 0 does not). -/
+
+/-- **C17 (rehash).**  For every hash function and every table satisfying the representation
+    invariant `WF` (allocated; unique keys; no empty slot on the probe path of a stored key;
+    `used` = occupied slots < capacity) `rehash` does not abort, and the table it leaves
+    * satisfies the invariant again,
+    * contains no tombstone,
+    * denotes the same dictionary (`absGet` of every key unchanged),
+    * has the specified capacity: the old one doubled `e` times, where `e` is the least number of
+      doublings that brings `live * 100 / capacity` below `LOW_WATERMARK` (`IsRehashCap`; `e = 0`
+      when the rehash only drops tombstones),
+    * has `used` = number of live names, and room for the insertion that follows. -/
+theorem C17_rehash_spec (h : α → Nat) (m : HM α β) (w : WF h m) :
+    ∃ m2, HM.rehash h m = .ok m2 ∧ WF h m2 ∧ NoTomb m2 ∧ (∀ k, absGet m2 k = absGet m k) ∧
+      IsRehashCap (HM.liveEntries m.buckets).length m.capacity m2.capacity ∧
+      m2.used = (HM.liveEntries m.buckets).length ∧ m2.used + 1 < m2.capacity :=
+  w.rehash_full
+
+/-- non-vacuity of `C17_rehash_spec`, on the shape that matters: a 16-bucket table (name `n`
+    hashes to bucket `n mod 16`) whose only cluster wraps around the end of the array — bucket 14 a
+    tombstone, bucket 15 name 30 (home 14), bucket 0 name 15 (home 15) — plus nine more tombstones,
+    i.e. `used = 12` (75 % ≥ HIGH_WATERMARK) with 2 live names: the state in which
+    `hashmap_put2` calls `rehash` and the capacity stays 16. -/
+example : WF (fun k : Nat => k)
+    (⟨[.full 15 3, .tomb, .tomb, .tomb, .tomb, .tomb, .tomb, .tomb, .tomb, .tomb,
+       .empty, .empty, .empty, .empty, .tomb, .full 30 2], 12⟩ : HM Nat Nat) := by
+  decide
+
+/-- … and `rehash` of that state, evaluated: capacity 16 again, no tombstone, both names at home
+    (30 in bucket 14, 15 in bucket 15), `used = 2`. -/
+example : (HM.rehash (fun k : Nat => k)
+    (⟨[.full 15 3, .tomb, .tomb, .tomb, .tomb, .tomb, .tomb, .tomb, .tomb, .tomb,
+       .empty, .empty, .empty, .empty, .tomb, .full 30 2], 12⟩ : HM Nat Nat)).toOption =
+    some ⟨[.empty, .empty, .empty, .empty, .empty, .empty, .empty, .empty, .empty, .empty,
+           .empty, .empty, .empty, .empty, .full 30 2, .full 15 3], 2⟩ := by
+  decide
+
+/-- **C17 (the new capacity is determined by the specification).**  `IsRehashCap` is not a
+    restatement of the loop: it has no fuel and no recursion, and it admits exactly one value. -/
+theorem C17_rehash_cap_determined (nkeys cap a b : Nat)
+    (ha : IsRehashCap nkeys cap a) (hb : IsRehashCap nkeys cap b) : a = b :=
+  ha.unique hb
+
+/-- non-vacuity of `C17_rehash_cap_determined`: 23 live names in 32 buckets (71 %) need one
+    doubling: 64 buckets (35 %) -/
+example : IsRehashCap 23 32 64 := ⟨1, by decide, by decide, fun e' he' => by
+  have : e' = 0 := by omega
+  subst this; decide⟩
+
+/-- **C17 (when `rehash` keeps the capacity).**  The table `rehash` returns has the old capacity
+    exactly when the live names load the old table below `LOW_WATERMARK` — the case in which the
+    rehash is there only to drop tombstones (define/undefine churn without net growth). -/
+theorem C17_rehash_keeps_capacity_iff (h : α → Nat) (m m2 : HM α β) (w : WF h m)
+    (e : HM.rehash h m = .ok m2) :
+    m2.capacity = m.capacity ↔
+      (HM.liveEntries m.buckets).length * 100 / m.capacity < LOW_WATERMARK := by
+  obtain ⟨m2', e', _, _, _, hcap, _⟩ := C17_rehash_spec h m w
+  rw [e] at e'
+  injection e' with e'
+  subst e'
+  exact hcap.same_iff
+
+/-- non-vacuity of `C17_rehash_keeps_capacity_iff` (hypothesis `e`): the state above -/
+example : ∃ m2, HM.rehash (fun k : Nat => k)
+    (⟨[.full 15 3, .tomb, .tomb, .tomb, .tomb, .tomb, .tomb, .tomb, .tomb, .tomb,
+       .empty, .empty, .empty, .empty, .tomb, .full 30 2], 12⟩ : HM Nat Nat) = .ok m2 :=
+  ⟨⟨[.empty, .empty, .empty, .empty, .empty, .empty, .empty, .empty, .empty, .empty,
+     .empty, .empty, .empty, .empty, .full 30 2, .full 15 3], 2⟩, eq_ok_of_toOption (by decide)⟩
+
+/-- **C17 (the model's load arithmetic is the code's).**  The translator reads the `while` of
+    `rehash()` and the load test of `get_or_insert_entry()` from the source on every run
+    (`Gen/HashMapShapeGen.lean`); one round of the model's capacity loop is that test and that
+    step, and the model's test before an insertion is that test.  A changed operator, factor,
+    scale or watermark in the C text changes the generated definitions and breaks this theorem. -/
+theorem C17_load_arithmetic_translated :
+    (∀ nkeys f cap, HM.growCap nkeys (f + 1) cap =
+        if rehashGrowCond nkeys cap = true then HM.growCap nkeys f (rehashGrowNext cap) else cap) ∧
+    (∀ used cap, needRehash used cap = decide (used * 100 / cap ≥ HIGH_WATERMARK)) ∧
+    (∀ (h : α → Nat) (m : HM α β) (k : α) (v : β), m.buckets.isEmpty = false →
+        HM.put h m k v = (do
+          let m ← if needRehash m.used m.capacity = true then HM.rehash h m else pure m
+          let p ← HM.insLoop m.buckets (h k) k m.buckets.length 0 none
+          pure (HM.applyIns m k v p))) := by
+  refine ⟨growCap_succ_eq_translated, needRehash_eq_model, ?_⟩
+  intro h m k v hne
+  simp only [HM.put, hne, needRehash_eq_model, HM.capacity, decide_eq_true_eq]
+  rfl
+
+/-- **C17 (inventory of hashmap.c).**  The functions and macros hashmap.c defines, the calls among
+    them and the statement sequence of `rehash()` — regenerated from the source on every run — are
+    exactly the ones the model covers: `rehash` counts the live names, computes the capacity,
+    allocates a FRESH table, re-inserts every live entry through `hashmap_put2` in bucket order,
+    asserts and overwrites the map; `rehash` calls nothing but `hashmap_put2` and is called only
+    from `get_or_insert_entry`.  (The translator itself refuses any other file-scope text, any
+    other signature and any other body of `rehash`, `get_entry`, `get_or_insert_entry`, `match`
+    and the six wrappers.) -/
+theorem C17_hashmap_inventory :
+    functionsDefined = ["fnv_hash", "rehash", "match", "get_entry", "get_or_insert_entry",
+      "hashmap_get", "hashmap_get2", "hashmap_put", "hashmap_put2", "hashmap_delete",
+      "hashmap_delete2", "hashmap_test"] ∧
+    macrosDefined = ["INIT_SIZE", "HIGH_WATERMARK", "LOW_WATERMARK", "TOMBSTONE"] ∧
+    callGraph = [("fnv_hash", []), ("rehash", ["hashmap_put2"]), ("match", []),
+      ("get_entry", ["fnv_hash", "match"]), ("get_or_insert_entry", ["fnv_hash", "rehash", "match"]),
+      ("hashmap_get", ["hashmap_get2"]), ("hashmap_get2", ["get_entry"]),
+      ("hashmap_put", ["hashmap_put2"]), ("hashmap_put2", ["get_or_insert_entry"]),
+      ("hashmap_delete", ["hashmap_delete2"]), ("hashmap_delete2", ["get_entry"])] ∧
+    rehashSteps = [.countLive, .growWhile, .assertCapPositive, .freshTable, .reinsertInBucketOrder,
+      .assertUsedEqLive, .overwriteMap] := by
+  decide
 
 end ChibiVerif.Props.C17
